@@ -105,6 +105,9 @@ func printResult(res *FuncResult, verbose bool) (fails int) {
 				secs = o.Result.Seconds
 			}
 			fmt.Printf("    %-8s %-10s %5.1fs %s  @%s:%d\n", st, sv, secs, o.Name, shortFile(o.Pos.Filename), o.Pos.Line)
+			if o.Note != "" {
+				fmt.Printf("             %s\n", o.Note)
+			}
 		}
 	}
 	if verbose {
